@@ -186,6 +186,8 @@ VARIANTS = [
     V("twin: positional family excluded through a local flag", ("C06", "C01"), "", "core.py", '            if engine == "flox" and not any(_is_first_last_reduction(f) for f in funcs):', '            if engine == "flox" and not any(_is_first_last_reduction(f_) for f_ in funcs):', expect="silent"),
     V("reindex refusals test the boolean spelling only", ("C19",), "R-NORMFORM", "core.py", '    if reindex_.blockwise is True and not all_eager:', '    if reindex is True and not all_eager:', must_mention="spelling"),
     V("twin: normalised strategy tested through a local flag", ("C19",), "", "core.py", '    if reindex_.blockwise is True and not all_eager:', '    wants_blockwise = reindex_.blockwise is True\n    if wants_blockwise and not all_eager:', expect="silent"),
+    V("finalizer re-indexes the un-cast value with the user's fill", ("C05", "C11"), "R-FILLCAST", "core.py", '            finalized[agg.name].astype(agg.dtype["final"], copy=False),\n            squeezed["groups"],', '            finalized[agg.name],\n            squeezed["groups"],', must_mention="fill_value=-1"),
+    V("twin: final cast as a statement before the finalizer's reindex (and again at the end)", ("C05", "C11"), "", "core.py", '    # Final reindexing has to be here to be lazy\n    if not reindex.blockwise and expected_groups is not None:\n        # the final dtype has room for the user\'s fill value (e.g. any/all or count with a negative or fractional fill): cast first\n        finalized[agg.name] = reindex_(\n            finalized[agg.name].astype(agg.dtype["final"], copy=False),', '    finalized[agg.name] = finalized[agg.name].astype(agg.dtype["final"], copy=False)\n    if not reindex.blockwise and expected_groups is not None:\n        finalized[agg.name] = reindex_(\n            finalized[agg.name],', expect="silent"),
     V("dtype promotion memoised with an untyped key", ("C14",), "R-MEMO", "xrdtypes.py", '        dtype = np.result_type(dtype, fill_value)\n    return dtype\n',
       '        dtype = _promote_for_fill_value(dtype, fill_value)\n    return dtype\n\n\n@functools.lru_cache\ndef _promote_for_fill_value(dtype: np.dtype, fill_value) -> np.dtype:\n    return np.result_type(dtype, fill_value)\n', must_mention="typed"),
     V("twin: dtype promotion memoised with typed=True", ("C14",), "", "xrdtypes.py", '        dtype = np.result_type(dtype, fill_value)\n    return dtype\n',
